@@ -1027,7 +1027,7 @@ func (p *Parser) parseGroupBy(stmt *SelectStatement) error {
 			flushItem()
 			break
 		}
-		if tok.Type == TokenComma {
+		if tok.Type == TokenComma && parenLevel == 0 { // a comma inside concat(a, b) belongs to the item
 			flushItem()
 			continue
 		}
